@@ -295,14 +295,18 @@ func (a lookupAnswer) same(m model.MatchResult) bool {
 // asIfMissed reports whether fox's answer is exactly what the documented rules give once the slash-adjusted candidates
 // that satisfy the split-edge predicate are taken out of consideration (known finding: those candidates are not
 // detected, fox then offers the next candidate, falls back to the path-only routes, or finds nothing).
-func (rr *routingRun) asIfMissed(p world.Probe, matchPath string, ans lookupAnswer) (bool, string) {
+func (rr *routingRun) asIfMissed(p world.Probe, matchPath string, ans lookupAnswer, lk world.RouteObs) (bool, string) {
 	set := rr.set.Clone()
 	addSlash := !strings.HasSuffix(matchPath, "/")
 	var missed []string
 	for i := 0; i < 6; i++ {
 		m := set.Match(p.Method, p.Host, matchPath, model.MatchOpts{})
-		if len(missed) > 0 && ans.same(m) {
-			return true, strings.Join(missed, ", ")
+		if len(missed) > 0 {
+			// what remains is judged like any other answer, including the documented '/'-capture ambiguity
+			mB := set.Match(p.Method, p.Host, matchPath, model.MatchOpts{AllowLeadingSlashCapture: true})
+			if ans.same(m) || ans.same(mB) || (fmtMatch(m) != fmtMatch(mB) && lk.Tag >= 0 && leadingSlashValue(lk.Params)) {
+				return true, strings.Join(missed, ", ")
+			}
 		}
 		if m.Route == nil || !m.TSR || !splitEdge(rr.set, m.Route, addSlash) {
 			return false, ""
@@ -368,7 +372,7 @@ func (rr *routingRun) knownTSR(p world.Probe, matchPath string, ans lookupAnswer
 	if staleTSRParams(ans, lk, want) {
 		return "C08/tsr-params-stale", "extra parameters reported"
 	}
-	if ok, missed := rr.asIfMissed(p, matchPath, ans); ok {
+	if ok, missed := rr.asIfMissed(p, matchPath, ans, lk); ok {
 		return "C08/tsr-missed-split-edge", "undetected candidate(s): " + missed
 	}
 	if ans.tag >= 0 && ans.tsr {
